@@ -434,8 +434,10 @@ func OP_MAP_LOAD_Handler(v *VM) {
 func OP_OBJ_LOAD_Handler(v *VM) {
 	idx, w := v.readMediumInt(v.pc)
 	v.pc += w
+	name, w := v.readConst(v.pc)
+	v.pc += w
 	o := v.Pop().Obj()
-	v.Push(o.V[idx])
+	v.Push(o.Load(idx, name.(string)))
 }
 
 //goland:noinspection GoSnakeCaseUsage
